@@ -27,8 +27,9 @@ SPEC = {
     'exhaustive': {'quick': False, 'thorough': True},
     'required_counters': ['recording_runs', 'injected_runs', 'crash_points_visited', 'error_points_visited', 'content_preservation_checks',
                           'classification_checks', 'reruns'],
-    'assumptions': ['effects reach the disk in program order; a rename/move within one file system is atomic; cross-device shutil.move is not modelled',
-                    'a write reaches the disk at close (writes are held back by the injector proxy until close, then torn deterministically)'],
+    'assumptions': ['effects reach the disk in program order; a rename/move within one file system is atomic',
+                    'a write reaches the disk at close (writes are held back by the injector proxy until close, then torn deterministically)',
+                    'cross-device moves are observed only when the machine offers a second writable file system (/dev/shm); otherwise counted as unavailable'],
 }
 
 INJECT = os.path.join(core.VERIF, 'vt', 'inject')
@@ -47,9 +48,16 @@ SHAPES = {
     'rules-old':          {'layout': 'old', 'rules': 'rules', 'output': True},
     'csv-old-commented-key': {'layout': 'old', 'rules': 'csv', 'commented_key': True},
     'csv-old-nosettingsline-views-output': {'layout': 'old', 'rules': 'csv', 'views': True, 'output': True, 'bak': True},
+    # the statement lives outside data/ and is named by an absolute path: it stays reachable in every intermediate state of a folder move
+    'csv-old-empty-key':  {'layout': 'old', 'rules': 'csv', 'empty_key': True},
+    'csv-old-altsettings': {'layout': 'old', 'rules': 'csv', 'altsettings': True},     # the budget is run with --settings settings-2024.yaml
+    'rules-old-absdata':  {'layout': 'old', 'rules': 'rules', 'absdata': True},
+    'csv-old-absdata':    {'layout': 'old', 'rules': 'csv', 'absdata': True},
 }
 COMMANDS = ['migrate', 'init', 'update']
-QUICK = [('csv-old', 'migrate'), ('csv-old-bak', 'init'), ('csv-old-output', 'update'), ('csv-new', 'migrate'), ('csv-old-commented-key', 'migrate')]
+QUICK = [('csv-old', 'migrate'), ('csv-old-bak', 'init'), ('csv-old-output', 'update'), ('csv-new', 'migrate'), ('csv-old-commented-key', 'migrate'),
+         ('rules-old-absdata', 'update'), ('csv-old', 'migrate', 'other-filesystem'), ('csv-old-empty-key', 'migrate'), ('csv-old-altsettings', 'migrate')]
+OTHER_FS = '/dev/shm'        # a file system other than the one holding the system temp directory (if this machine has one)
 
 
 def build(root, shape):
@@ -61,6 +69,11 @@ def build(root, shape):
     with open(os.path.join(base, 'data', 'a.csv'), 'w') as f:
         f.write(DATA)
     s = 'year: 2025\ndata_sources:\n  - name: A\n    file: data/a.csv\n    format: "{date:%Y-%m-%d},{description},{amount}"\n'
+    if sp.get('absdata'):
+        os.makedirs(os.path.join(root, 'statements'))
+        with open(os.path.join(root, 'statements', 'a.csv'), 'w') as f:
+            f.write(DATA)
+        s = s.replace('file: data/a.csv', 'file: %s' % os.path.join(root, 'statements', 'a.csv'))
     if sp['rules'] == 'rules':
         s += 'merchants_file: config/merchants.rules\n'
         with open(os.path.join(cfg, 'merchants.rules'), 'w') as f:
@@ -68,13 +81,15 @@ def build(root, shape):
     else:
         with open(os.path.join(cfg, 'merchant_categories.csv'), 'w') as f:
             f.write(CSV)
+    if sp.get('empty_key'):
+        s += rnd_free_choice(shape, ['merchants_file:\n', 'merchants_file: \n', 'merchants_file: ~\n', 'merchants_file: null\n'])
     if sp.get('commented_key'):
         s += '# merchants_file: config/merchants.rules   (not migrated yet)\n# views_file: config/views.rules\n'
     if sp.get('views'):
         s += 'views_file: config/views.rules\n'
         with open(os.path.join(cfg, 'views.rules'), 'w') as f:
             f.write(VIEWS)
-    with open(os.path.join(cfg, 'settings.yaml'), 'w') as f:
+    with open(os.path.join(cfg, ALT if sp.get('altsettings') else 'settings.yaml'), 'w') as f:
         f.write(s)
     if sp.get('bak'):
         with open(os.path.join(cfg, 'merchant_categories.csv.bak'), 'w') as f:
@@ -89,11 +104,16 @@ def build(root, shape):
     return base, cfg
 
 
+def rnd_free_choice(key, options):
+    """Deterministic pick (shape builds must be reproducible across the recording run and every injected run)."""
+    return options[int(hashlib.sha256(key.encode()).hexdigest(), 16) % len(options)]
+
+
 def cmd_args(cmd, shape, root):
     sp = SHAPES[shape]
     cfg_rel = 'tally/config' if sp['layout'] == 'new' else 'config'
     if cmd == 'migrate':
-        return ['up', cfg_rel, '--migrate', '-q']
+        return ['up', cfg_rel, '--migrate', '-q'] + (['--settings', ALT] if sp.get('altsettings') else [])
     if cmd == 'init':
         return ['init'] if sp['layout'] == 'old' else ['init', 'tally']
     return ['update', '-y']
@@ -109,9 +129,20 @@ def contents(root):
     return out
 
 
+def other_filesystem():
+    try:
+        return os.path.isdir(OTHER_FS) and os.access(OTHER_FS, os.W_OK) and os.stat(OTHER_FS).st_dev != os.stat(tempfile.gettempdir()).st_dev
+    except OSError:
+        return False
+
+
+ALT = 'settings-2024.yaml'
+
+
 def classification(root):
     """`tally up` as the user would run it from the budget root (auto-detected config dir), fresh process."""
-    p = B.tally(root, 'up', '--format', 'json', '-v', '-q')
+    alt = ['--settings', ALT] if os.path.exists(os.path.join(root, 'config', ALT)) else []
+    p = B.tally(root, 'up', *alt, '--format', 'json', '-v', '-q')
     if p.returncode != 0:
         return {'failed': (p.stderr or p.stdout).strip().splitlines()[-1][:120] if (p.stderr or p.stdout).strip() else 'exit %d' % p.returncode}
     try:
@@ -161,7 +192,7 @@ def judge_point(rec, shape, cmd, k, mode, eff_k, baseline, tmp, log):
     for rel, data in before.items():
         if data in blobs:
             continue
-        if rel.endswith('settings.yaml') and any(v.startswith(data) for v in after.values()):
+        if (rel.endswith('settings.yaml') or rel.endswith(ALT)) and any(v.startswith(data) for v in after.values()):
             continue
         rec.violation('content-lost:%s/%s/%s' % (cmd, step, mode), f'{shape}: after {mode} at effect {k} ({eff_k}), the content of {rel} exists nowhere in the tree', case)
         return
@@ -203,11 +234,24 @@ def points_for(effects):
 def run(rec, shard, nshards, t):
     core.import_tally()
     tmp = tempfile.mkdtemp(prefix='vt-c15-')
+    xdirs = []
     log = os.path.join(tempfile.gettempdir(), 'vt-c15-%d.log' % os.getpid())
     try:
-        pairs = QUICK if t == 'quick' else [(s, c) for s in SHAPES for c in COMMANDS]
+        pairs = QUICK if t == 'quick' else [(s, c) for s in SHAPES for c in COMMANDS] + [(s, c, 'other-filesystem') for s in ('csv-old', 'csv-new', 'csv-old-views')
+                                                                                             for c in ('migrate', 'init')]
         idx = 0
-        for shape, cmd in pairs:
+        tmp_home = tmp
+        for item in pairs:
+            shape, cmd = item[:2]
+            tmp = tmp_home
+            if len(item) > 2:
+                # the budget on another file system than the temp directory: a "rename" from the temp directory degrades to copy + delete
+                if not other_filesystem():
+                    rec.count('other_filesystem_unavailable')
+                    continue
+                tmp = tempfile.mkdtemp(prefix='vt-c15x-', dir=OTHER_FS)
+                xdirs.append(tmp)
+                rec.count('other_filesystem_pairs')
             # baseline + recording run (every shard repeats them: cheap, and it keeps shards independent)
             root = os.path.join(tmp, 'base')
             shutil.rmtree(root, ignore_errors=True)
@@ -236,7 +280,9 @@ def run(rec, shard, nshards, t):
                     continue
                 judge_point(rec, shape, cmd, k, mode, e, baseline, tmp, log)
     finally:
-        shutil.rmtree(tmp, ignore_errors=True)
+        shutil.rmtree(tmp_home if 'tmp_home' in dir() else tmp, ignore_errors=True)
+        for d in xdirs:
+            shutil.rmtree(d, ignore_errors=True)
         if os.path.exists(log):
             os.unlink(log)
 
